@@ -815,6 +815,9 @@ func (m *c09Mon) check(op, res string, cur *c09Snap) {
 			if f[0] != "lc_update" && !newDesc {
 				which = "conflicting-consensus-state-written-by-" + f[0]
 			}
+			if f[0] == "update" && pc == nil {
+				which = "fork-resolution-writes-disagreeing-consensus-state"
+			}
 			if why := agree(cs, d, true); why != "" {
 				m.violate("C09/later_conflict_rejected/"+which,
 					fmt.Sprintf("r%d c%d height %d: consensus state %+v vs descriptor %+v disagree (%s) after %s", r, c, cs.H, *cs, *d, why, op))
